@@ -27,6 +27,8 @@ which keeps the meaning exactly:
   * an if / elif / else whose arms each end by giving a fresh local a constant, followed by (at most three) statements that use it:
     those statements are repeated in each arm with the constant written in;  `x = <constant / function reference>` is written
     into the statements that follow it in its block, and dropped when x is read nowhere;
+  * a loop over a display of at most six rows whose body calls a new helper is written out once per row (cells that are not
+    constants or function references bound to fresh locals first, in display order);
   * x = TABLE[E] over a constant table of function references (E a plain reference) becomes the if / elif chain that picks the
     entry, keys with the same entry grouped, `raise KeyError(E)` at the end;  E in TABLE becomes E in (keys...);
   * a search loop over a constant table whose body is `if TEST: ...; break` (or `...; return`) becomes the if / elif chain it
@@ -648,6 +650,11 @@ class Simplifier:
                     self.changed = True
                     out.extend(self.block(u, local))
                     continue
+                u = self.unroll_rows(s, local, out)
+                if u is not None:
+                    self.changed = True
+                    out.extend(self.block(u, local))
+                    continue
             for fld, val in ast.iter_fields(s):
                 if isinstance(val, list) and val and isinstance(val[0], ast.stmt):
                     setattr(s, fld, self.block(val, local))
@@ -691,7 +698,9 @@ class Simplifier:
                 called = {id(c.func) for c in ast.walk(self.f) if isinstance(c, ast.Call)}
                 if all(id(n) in called for n in refs):
                     h = Func(self.qn + '.<locals>.' + fn.id, defs[0], self.mod)
-        if h is None or not self.allow(h.qn) or h.name.startswith('__') or h.mod is not self.mod or h.vararg or h.kwarg \
+        if h is not None and (h.vararg or h.kwarg) and not self._only_forwards(h):
+            return None
+        if h is None or not self.allow(h.qn) or h.name.startswith('__') or h.mod is not self.mod \
                 or h.is_static or h.is_classmethod or getattr(h.node, 'decorator_list', None) or h.qn in self.stack:
             return None
         if self.inlined >= 12 or len(self.stack) >= 3:
@@ -711,17 +720,28 @@ class Simplifier:
             if not pos:
                 return None
             pos = pos[1:]
-        if len(call.args) > len(pos):
+        if len(call.args) > len(pos) and not h.vararg:
             return None
         got = {}
         for nm, a in zip(pos, call.args):
             got[nm] = a
+        extra_pos = list(call.args[len(pos):])
+        extra_kw = []
         for k in call.keywords:
-            if k.arg in got or k.arg not in h.params:
+            if k.arg in got:
                 return None
+            if k.arg not in h.params:
+                if not h.kwarg:
+                    return None
+                extra_kw.append(k)
+                continue
             got[k.arg] = k.value
         # evaluation order: positional arguments, then keywords, as written; defaults are constants
-        order = [nm for nm, _ in zip(pos, call.args)] + [k.arg for k in call.keywords]
+        order = [nm for nm, _ in zip(pos, call.args)] + ['*%d' % i for i in range(len(extra_pos))] + [k.arg if k.arg in got else '**' + k.arg for k in call.keywords]
+        for i, a in enumerate(extra_pos):
+            got['*%d' % i] = a
+        for k in extra_kw:
+            got['**' + k.arg] = k.value
         for nm in h.params[1 if bound else 0:]:
             if nm not in got:
                 d = h.defaults.get(nm)
@@ -730,6 +750,23 @@ class Simplifier:
                 got[nm] = d
                 order.append(nm)
         return h, [(nm, got[nm]) for nm in order], bound
+
+    def _only_forwards(self, h):
+        """*args / **kwargs of the helper are only ever handed on: f(*args, **kwargs)"""
+        parents = {}
+        for n in ast.walk(h.node):
+            for c in ast.iter_child_nodes(n):
+                parents[id(c)] = n
+        for n in ast.walk(h.node):
+            if isinstance(n, ast.Name) and n.id in (h.vararg, h.kwarg):
+                par = parents.get(id(n))
+                if n.id == h.vararg and isinstance(par, ast.Starred) and isinstance(parents.get(id(par)), ast.Call) and par in parents[id(par)].args \
+                        and isinstance(n.ctx, ast.Load):
+                    continue
+                if n.id == h.kwarg and isinstance(par, ast.keyword) and par.arg is None and isinstance(n.ctx, ast.Load):
+                    continue
+                return False
+        return True
 
     def _defined_before(self, d, call):
         i = self.f.body.index(d)
@@ -910,7 +947,22 @@ class Simplifier:
                 ren[nm] = fresh(nm)
         pre = []
         sub = {}
+        star, dstar = [], []
         for nm, arg in binds:
+            if nm.startswith('*'):
+                simple = isinstance(arg, (ast.Name, ast.Constant)) or self.stable_ref(arg, local)
+                if simple:
+                    val = copy.deepcopy(arg)
+                else:
+                    tmp = fresh('arg')
+                    pre.append(ast.copy_location(ast.Assign([ast.Name(tmp, ast.Store())], copy.deepcopy(arg)), s))
+                    pre[-1]._temp = True
+                    val = ast.Name(tmp, ast.Load())
+                if nm.startswith('**'):
+                    dstar.append(ast.keyword(nm[2:], val))
+                else:
+                    star.append(val)
+                continue
             simple = isinstance(arg, (ast.Name, ast.Constant)) or self.stable_ref(arg, local) or \
                 (isinstance(arg, ast.Tuple) and arg.elts and all(isinstance(e, (ast.Name, ast.Constant)) or self.stable_ref(e, local) for e in arg.elts))
             if simple and not hstores.get(nm) and not (isinstance(arg, ast.Name) and arg.id in hlocals and arg.id not in ren):
@@ -927,11 +979,47 @@ class Simplifier:
                     if isinstance(n, ast.Name) and n.id in ren and id(n) not in seen_ids:
                         seen_ids.add(id(n))
                         n.id = ren[n.id]
+                    elif isinstance(n, ast.ExceptHandler) and n.name in ren and id(n) not in seen_ids:
+                        seen_ids.add(id(n))
+                        n.name = ren[n.name]
+        if h.vararg or h.kwarg:
+            class Splice(ast.NodeTransformer):
+                def visit_Call(self2, n):
+                    self2.generic_visit(n)
+                    args = []
+                    for a in n.args:
+                        if isinstance(a, ast.Starred) and isinstance(a.value, ast.Name) and a.value.id == ren.get(h.vararg, h.vararg) and h.vararg:
+                            args += [copy.deepcopy(x) for x in star]
+                        else:
+                            args.append(a)
+                    kws = []
+                    for k in n.keywords:
+                        if k.arg is None and isinstance(k.value, ast.Name) and h.kwarg and k.value.id == ren.get(h.kwarg, h.kwarg):
+                            kws += [copy.deepcopy(x) for x in dstar]
+                        else:
+                            kws.append(k)
+                    n.args, n.keywords = args, kws
+                    return n
+            for root in ([hnode] + list(tree or [])):
+                Splice().visit(root)
         if tree is not None:
             res = fresh('result')
-            body = _arms_to_assign([Subst(sub).visit(b) for b in tree], res if how == 'assign' else None)
+            tg = s.targets[0] if how == 'assign' and len(s.targets) == 1 else None
+            direct = None
+            if isinstance(tg, ast.Name):
+                direct = tg
+            elif isinstance(tg, (ast.Tuple, ast.List)) and tg.elts and all(isinstance(e, ast.Name) for e in tg.elts):
+                rv = [n.value for st_ in tree for n in ast.walk(st_) if isinstance(n, ast.Return)]
+                if rv and all(isinstance(v, ast.Tuple) and len(v.elts) == len(tg.elts) and not any(isinstance(e, ast.Starred) for e in v.elts) for v in rv):
+                    direct = tg
+            # the names being bound must not be read by the helper's own code under another meaning
+            if direct is not None:
+                tnames = {e.id for e in ([direct] if isinstance(direct, ast.Name) else direct.elts)}
+                if tnames & helper_names:
+                    direct = None
+            body = _arms_to_assign([Subst(sub).visit(b) for b in tree], (direct if direct is not None else res) if how == 'assign' else None)
             out = pre + body
-            if how == 'assign':
+            if how == 'assign' and direct is None:
                 out.append(ast.copy_location(ast.Assign(s.targets, ast.Name(res, ast.Load())), s))
                 out[-1]._temp_use = True
             for st in out:
@@ -1020,8 +1108,20 @@ class Simplifier:
                 collect(st)
                 # arms that never reach what follows (they end in raise / return) take no copy
                 arms = [a for a in arms if not (a and isinstance(a[-1], (ast.Raise, ast.Return)))]
+                lcl = set(stores(self.f)) | set(_params(self.f.args))
+
+                def cheap(e):
+                    # a comparison of plain references with constants: nothing happens when it is evaluated
+                    return isinstance(e, ast.Compare) and self._pure(e.left, lcl) and all(_const(c) for c in e.comparators)
+                simple_use = False
+                if i + 1 < len(stmts):
+                    nx = stmts[i + 1]
+                    tst = nx.test if isinstance(nx, ast.If) else nx.value if isinstance(nx, (ast.Assign, ast.Return)) else None
+                    if isinstance(tst, ast.UnaryOp) and isinstance(tst.op, ast.Not):
+                        tst = tst.operand
+                    simple_use = isinstance(tst, ast.Name)
                 if 1 <= len(arms) <= 8 and all(a and isinstance(a[-1], ast.Assign) and len(a[-1].targets) == 1 and isinstance(a[-1].targets[0], ast.Name)
-                                              and (_const(a[-1].value) or self.stable_ref(a[-1].value, set(stores(self.f)) | set(_params(self.f.args))))
+                                              and (_const(a[-1].value) or self.stable_ref(a[-1].value, lcl) or (simple_use and cheap(a[-1].value)))
                                               for a in arms):
                     t = arms[0][-1].targets[0].id
                     n_stores = sum(1 for n in ast.walk(self.f) if isinstance(n, ast.Name) and n.id == t and isinstance(n.ctx, (ast.Store, ast.Del)))
@@ -1031,6 +1131,9 @@ class Simplifier:
                         later_stores = any(isinstance(n, ast.Name) and n.id == t and isinstance(n.ctx, ast.Store) for r in rest for n in ast.walk(r))
                         everywhere = [n for n in ast.walk(self.f) if isinstance(n, ast.Name) and n.id == t and isinstance(n.ctx, ast.Load)]
                         inside = [n for r in rest for n in ast.walk(r) if isinstance(n, ast.Name) and n.id == t and isinstance(n.ctx, ast.Load)]
+                        has_cheap = any(not (_const(a[-1].value) or self.stable_ref(a[-1].value, lcl)) for a in arms)
+                        if has_cheap and not (uses == [0] and len(inside) == 1 and simple_use):
+                            continue
                         if uses and uses[-1] <= 2 and not later_stores and len(everywhere) == len(inside) \
                                 and not any(isinstance(n, (ast.Return, ast.Break, ast.Continue)) for r in rest[:uses[-1] + 1] for n in ast.walk(r)):
                             moved = rest[:uses[-1] + 1]
@@ -1187,6 +1290,13 @@ class Simplifier:
                 del stmts[i]
                 self.changed = True
                 return True
+            # ... or is the function the next statement calls (the callee is evaluated before its arguments)
+            if isinstance(b, (ast.Assign, ast.Return, ast.Expr)) and isinstance(b.value, ast.Call) and isinstance(b.value.func, ast.Name) \
+                    and b.value.func.id == t:
+                b.value.func = a.value
+                del stmts[i]
+                self.changed = True
+                return True
         for st in stmts:
             for fld, val in ast.iter_fields(st):
                 if isinstance(val, list) and val and isinstance(val[0], ast.stmt) and not isinstance(st, SCOPES):
@@ -1310,6 +1420,73 @@ class Simplifier:
             node = ast.copy_location(ast.If(test, body, chain if chain is not None else [copy.deepcopy(x) for x in s.orelse]), inner)
             chain = [node]
         return chain
+
+    def unroll_rows(self, s, local, before):
+        """for (a, b, ...) in ((x1, y1, ...), (x2, y2, ...)): BODY   over a display of at most six rows written in place (or bound
+        to a local by the statement just before and used for nothing else), BODY without break / continue / else: the cells that
+        are not constants or function references are bound to fresh locals first, in the order the display evaluates them, then
+        BODY is repeated once per row.  Only where a new helper is involved (the program-wide gate), to leave plain loops alone."""
+        if s.orelse or not isinstance(s.target, (ast.Tuple, ast.List)) or not all(isinstance(e, ast.Name) for e in s.target.elts):
+            return None
+        rows_node = None
+        drop_prev = False
+        if isinstance(s.iter, (ast.Tuple, ast.List)):
+            rows_node = s.iter
+        elif isinstance(s.iter, ast.Name) and before and isinstance(before[-1], ast.Assign) and len(before[-1].targets) == 1 \
+                and isinstance(before[-1].targets[0], ast.Name) and before[-1].targets[0].id == s.iter.id \
+                and isinstance(before[-1].value, (ast.Tuple, ast.List)):
+            uses = [n for n in ast.walk(self.f) if isinstance(n, ast.Name) and n.id == s.iter.id]
+            if len(uses) == 2 and stores(self.f).get(s.iter.id) == 1:
+                rows_node = before[-1].value
+                drop_prev = True
+        if rows_node is None or not (1 <= len(rows_node.elts) <= 6):
+            return None
+        names = [e.id for e in s.target.elts]
+        if not all(isinstance(r, (ast.Tuple, ast.List)) and len(r.elts) == len(names) and not any(isinstance(c, ast.Starred) for c in r.elts)
+                   for r in rows_node.elts):
+            return None
+        for n in ast.walk(ast.Module(s.body, [])):
+            if isinstance(n, (ast.Break, ast.Continue, ast.Yield, ast.YieldFrom)):
+                return None
+        # the body must call a new helper (or the row must hold one): otherwise the loop is left as written
+        if not any(isinstance(n, ast.Call) and self._helper(n, local | set(names)) is not None for st in s.body for n in ast.walk(st)) and \
+                not any(self._mentions_new(c, local) for r in rows_node.elts for c in r.elts):
+            return None
+        # loop variables must not be looked at after the loop
+        inside = {id(n) for n in ast.walk(s)}
+        if any(isinstance(n, ast.Name) and n.id in names and id(n) not in inside for n in ast.walk(self.f)):
+            return None
+        if any(isinstance(n, ast.Name) and n.id in names and isinstance(n.ctx, (ast.Store, ast.Del)) for st in s.body for n in ast.walk(st)):
+            return None
+        self.unrolled = getattr(self, 'unrolled', 0) + 1
+        pre, bodies = [], []
+        for ri, r in enumerate(rows_node.elts):
+            m = {}
+            for nm, c in zip(names, r.elts):
+                if _const(c) or self.stable_ref(c, local):
+                    m[nm] = c
+                else:
+                    # (whatever the cell is: the display evaluates every cell, in this order, before the first pass)
+                    tmp = '%s__r%d_%d' % (nm, self.unrolled, ri + 1)
+                    a = ast.copy_location(ast.Assign([ast.Name(tmp, ast.Store())], copy.deepcopy(c)), s)
+                    pre.append(a)
+                    m[nm] = ast.Name(tmp, ast.Load())
+            bodies += [Subst(m).visit(copy.deepcopy(st)) for st in s.body]
+        if drop_prev:
+            before.pop()
+        out = pre + bodies
+        for st in out:
+            ast.fix_missing_locations(st)
+        return out
+
+    def _mentions_new(self, c, local):
+        if isinstance(c, ast.Attribute) and isinstance(c.value, ast.Name) and c.value.id == 'self' and self.cls is not None:
+            hm = self.p.lookup_method(self.cls.qn, c.attr)
+            return hm is not None and self.allow(hm.qn)
+        if isinstance(c, ast.Name) and c.id not in local:
+            sy = self.mod.syms.get(c.id)
+            return sy is not None and sy.kind == 'func' and self.allow(sy.target)
+        return False
 
     def propagate(self, local_counts):
         """replace single-assignment locals bound to stable references by what they are bound to"""
@@ -1440,15 +1617,19 @@ def renumber(fnode):
                 b = getattr(st, fld, None)
                 if isinstance(b, list) and b and isinstance(b[0], ast.stmt):
                     visit(b)
-            for hd in getattr(st, 'handlers', []) or []:
-                counter[0] += 1
-                if hasattr(hd, 'lineno'):
-                    if not hasattr(hd, '_src_lineno'):
-                        hd._src_lineno = hd.lineno
-                    hd.lineno = counter[0]
-                visit(hd.body)
+                if fld == 'body':
+                    for hd in getattr(st, 'handlers', []) or []:
+                        counter[0] += 1
+                        if hasattr(hd, 'lineno'):
+                            if not hasattr(hd, '_src_lineno'):
+                                hd._src_lineno = hd.lineno
+                            hd.lineno = counter[0]
+                        visit(hd.body)
+                        hd.end_lineno = counter[0]
             for case in getattr(st, 'cases', []) or []:
                 visit(case.body)
+            if hasattr(st, 'end_lineno'):
+                st.end_lineno = counter[0]
     visit(fnode.body)
 
 
@@ -1642,6 +1823,16 @@ def _returns_to_arms(stmts, depth=0):
             continue
         if isinstance(st, ast.Return):
             return stmts[:i + 1]
+        if isinstance(st, ast.Try) and i == len(stmts) - 1 and not any(_has_return(x) for x in st.finalbody) and not st.orelse:
+            # the last statement: a return at the end of the try body or of a handler ends that path of the function
+            b = _returns_to_arms(st.body, depth + 1)
+            hs = [_returns_to_arms(h.body, depth + 1) for h in st.handlers]
+            if b is None or any(h is None for h in hs):
+                return None
+            st.body = b
+            for h, hb in zip(st.handlers, hs):
+                h.body = hb
+            return stmts
         if not isinstance(st, ast.If):
             return None
         rest = stmts[i + 1:]
@@ -1656,6 +1847,12 @@ def _returns_to_arms(stmts, depth=0):
     return stmts
 
 
+def _target_node(target):
+    if isinstance(target, str):
+        return ast.Name(target, ast.Store())
+    return copy.deepcopy(target)
+
+
 def _arms_to_assign(stmts, target):
     """the returns of an if / else tree (see _returns_to_arms) become `target = value` (or the bare value, evaluated for its
     effects, when there is no target); an arm that falls off the end yields None"""
@@ -1663,7 +1860,7 @@ def _arms_to_assign(stmts, target):
     for st in stmts:
         if isinstance(st, ast.Return):
             if target is not None:
-                out.append(ast.copy_location(ast.Assign([ast.Name(target, ast.Store())], st.value or ast.Constant(None)), st))
+                out.append(ast.copy_location(ast.Assign([_target_node(target)], st.value or ast.Constant(None)), st))
             elif st.value is not None and not isinstance(st.value, (ast.Name, ast.Constant)):
                 out.append(ast.copy_location(ast.Expr(st.value), st))
             return out or [ast.copy_location(ast.Pass(), st)]
@@ -1672,9 +1869,18 @@ def _arms_to_assign(stmts, target):
             st.orelse = _arms_to_assign(st.orelse, target) if (st.orelse or target is not None) else st.orelse
             out.append(st)
             return out
+        if isinstance(st, ast.Try) and _has_return(st):
+            st.body = _arms_to_assign(st.body, target)
+            for h in st.handlers:
+                h.body = _arms_to_assign(h.body, target)
+            out.append(st)
+            return out
         out.append(st)
     if target is not None:
-        out.append(ast.Assign([ast.Name(target, ast.Store())], ast.Constant(None)))
+        tn = _target_node(target)
+        if isinstance(tn, (ast.Tuple, ast.List)):
+            return None if False else out + [ast.Assign([tn], ast.Constant(None))]      # (unpacking None fails, as it did)
+        out.append(ast.Assign([tn], ast.Constant(None)))
     return out
 
 
